@@ -19,9 +19,14 @@ ND = 2   # direct processors in histdrv
 SENTINEL_YEAR = 1872      # LocalDate::forEpochSeconds(kInvalidEpochSeconds).year()
 
 
+ARG_VARIANT = [0]     # 0: mid-July, 1: 20 January (before the year's first transition in most zones)
+
+
 def arg_for_year(y):
     if y == SENTINEL_YEAR:
         return -2**31         # the error sentinel as the argument
+    if ARG_VARIANT[0] == 1:
+        return calendar.timegm((y, 1, 20, 3, 0, 0)) - EPOCH2000
     return calendar.timegm((y, 7, 15, 12, 0, 0)) - EPOCH2000
 
 
